@@ -37,6 +37,7 @@ def run_one(pid, m, tier, tests):
         out = p.stdout + p.stderr
         res = {"name": m["name"], "exit": p.returncode,
                "equivalent": m.get("equivalent"),
+               "out_of_reach": m.get("out_of_reach"),
                "caught": p.returncode == 1 and "VIOLATION property=" in out,
                "wall_s": round(time.time() - t0, 1)}
         msg = [l for l in out.splitlines() if l.startswith("violation:")]
@@ -78,7 +79,11 @@ def main():
         json.dump({"property": pid, "tier": tier, "results": results},
                   open(os.path.join(ROOT, "mutants", "results", pid + ".json"), "w"),
                   indent=1)
-    missed = [r["name"] for r in results if not r.get("caught") and not r.get("equivalent")]
+    missed = [r["name"] for r in results if not r.get("caught") and not r.get("equivalent")
+              and not r.get("out_of_reach")]
+    oor = [r["name"] for r in results if not r.get("caught") and r.get("out_of_reach")]
+    if oor:
+        print("documented as out of reach:", oor)
     false_alarm = [r["name"] for r in results if r.get("caught") and r.get("equivalent")]
     if false_alarm:
         print("ALARM ON PROPERTY-PRESERVING MUTANT:", false_alarm)
